@@ -41,6 +41,12 @@ class BoxS:
         self.__dict__.update(state)
 
 
+class BoxSlots:
+    """Instance without __dict__ (slots only): its state is set attribute by attribute in the second phase, like Box's."""
+    __slots__ = ('attr0', 'attr1', 'attr2', 'attr3')
+
+
+BOXSLOTSTAG = PY + 'object:vf.checks.c13.BoxSlots'
 BOXTAG = PY + 'object:vf.checks.c13.Box'
 BOXSTAG = PY + 'object:vf.checks.c13.BoxS'
 
@@ -57,7 +63,7 @@ class YSafe(yaml.YAMLObject):
     yaml_loader = [getattr(yaml, n) for n in ('SafeLoader', 'CSafeLoader') if hasattr(yaml, n)]
 
 
-OBJ_CLASSES = {BOXTAG: Box, BOXSTAG: BoxS, '!ybox': YBox, '!ysafe': YSafe}
+OBJ_CLASSES = {BOXSLOTSTAG: BoxSlots, BOXTAG: Box, BOXSTAG: BoxS, '!ybox': YBox, '!ysafe': YSafe}
 LEVELS = {'safe': ['SafeLoader', 'CSafeLoader'], 'full': ['FullLoader', 'CFullLoader'], 'unsafe': ['UnsafeLoader', 'CUnsafeLoader']}
 
 
@@ -149,7 +155,7 @@ class GraphGen:
         if self.level in ('full', 'unsafe'):
             kinds += ['tuple', 'tuple']
         if self.level == 'unsafe':
-            kinds += ['box', 'box']
+            kinds += ['box', 'box', 'boxslots']
             if not self.deep:
                 kinds += ['boxs']
         kind = r.choice(kinds)
@@ -174,6 +180,8 @@ class GraphGen:
             m = M([(self.keynode(used), self.node(depth + 1)) for _ in range(n)], flow, None, anchor)
         elif kind == 'box':
             m = M([(S('attr%d' % i, 'plain'), self.node(depth + 1)) for i in range(n)], flow, BOXTAG, anchor)
+        elif kind == 'boxslots':
+            m = M([(S('attr%d' % i, 'plain'), self.node(depth + 1)) for i in range(min(n, 4))], flow, BOXSLOTSTAG, anchor)
         elif kind == 'ybox':
             m = M([(S('attr%d' % i, 'plain'), self.node(depth + 1)) for i in range(n)], flow, '!ysafe' if self.level == 'safe' else '!ybox', anchor)
         elif kind == 'boxs':
@@ -350,7 +358,7 @@ def walk_model_nodes(model, node, table, seen):
             walk_model_nodes(mv, cv, table, seen)
 
 
-CONTAINERS = (list, dict, set, Box, BoxS, YBox, YSafe)
+CONTAINERS = (list, dict, set, Box, BoxS, BoxSlots, YBox, YSafe)
 
 
 def walk_nodes_objects(node, obj, n2o, o2n, visited):
@@ -396,7 +404,7 @@ def walk_nodes_objects(node, obj, n2o, o2n, visited):
         if tag in OBJ_CLASSES:
             if type(obj) is not OBJ_CLASSES[tag]:
                 raise Mismatch('object node (%s) built into %s' % (tag, type(obj).__name__))
-            d = obj.__dict__
+            d = obj.__dict__ if hasattr(obj, '__dict__') else {k: getattr(obj, k) for k in type(obj).__slots__ if hasattr(obj, k)}
         else:
             if type(obj) is not dict:
                 raise Mismatch('mapping node built into %s' % type(obj).__name__)
